@@ -383,7 +383,7 @@ pub const PROGRAMS: &[&str] = &[
 ];
 
 pub fn gen(tier: Tier, r: &mut Rng, emit: &mut dyn FnMut(String)) {
-    let n = if tier == Tier::Quick { 10 } else { 400 };
+    let n = if tier == Tier::Quick { 10 } else { 300 };
     let o = GenOpts { block_scalars: true, comments: true, breaks: false, anchors: false, multidoc: false, max_depth: 3 };
     let mut made = 0;
     let mut attempts = 0;
@@ -448,7 +448,7 @@ pub fn gen(tier: Tier, r: &mut Rng, emit: &mut dyn FnMut(String)) {
     }
     // strings with escapes at the start / middle / END in every syntax, through streamed navigation
     // and evaluator programs
-    let ne = if tier == Tier::Quick { 32 } else { 330 };
+    let ne = if tier == Tier::Quick { 32 } else { 200 };
     let mut i = 0;
     let mut esc_tries = 0;
     while i < ne && esc_tries < ne * 30 {
@@ -485,7 +485,7 @@ pub fn gen(tier: Tier, r: &mut Rng, emit: &mut dyn FnMut(String)) {
         i += 1;
     }
     // integers beyond 2^53 under navigation programs, JSON given on stdin and as a *.json file
-    let nn = if tier == Tier::Quick { 10 } else { 300 };
+    let nn = if tier == Tier::Quick { 10 } else { 200 };
     let mut i = 0;
     let mut nav_tries = 0;
     while i < nn && nav_tries < nn * 30 {
